@@ -20,6 +20,7 @@ mod server;
 mod tls;
 mod srvk;
 mod np;
+mod e2e;
 
 use std::io::{BufRead, Write};
 
@@ -49,6 +50,7 @@ fn gen(stream: &str, seed: u64, n: u64) -> Vec<String> {
                 "tls" => tls::gen(&mut r, i),
                 "srvk" => srvk::gen(&mut r, i),
                 "np" => np::gen(&mut r, i),
+                "e2e" => e2e::gen(&mut r, i),
                 "poolt" => { let b = pool::gen_timed(&mut r, i); if b.starts_with('X') { b } else { format!("X{b}") } }
                 _ => panic!("unknown stream {stream}"),
             };
@@ -79,6 +81,7 @@ fn run_line(line: &str) -> String {
         "tls" => tls::run(&toks),
         "srvk" => srvk::run(&toks),
         "np" => np::run(&toks),
+        "e2e" => e2e::run(&toks),
         _ => "unknown-stream".to_string(),
     };
     format!("{input} | {obs}")
